@@ -464,9 +464,9 @@ def r23_5(ctx, m):
                     for b, lab in cfg.succ[t.id]:
                         # the edge that skips the normalisation
                         pass
-            txt = [(src(t).replace(" ", ""), pol) for t, pol in _bypass_guards(cfg, d, n.id, arg.id if isinstance(arg, ast.Name) else None)]
-            ok_guard = any(pol and (s_.endswith(".flags.c_contiguous") or s_.endswith(".flags['C_CONTIGUOUS']") or s_.endswith('.flags["C_CONTIGUOUS"]')) for s_, pol in txt) or \
-                any((not pol) and s_.startswith("not") and "c_contiguous" in s_ for s_, pol in txt)
+            bg = _bypass_guards(cfg, d, n.id, arg.id if isinstance(arg, ast.Name) else None)
+            txt = [(src(t).replace(" ", ""), pol) for t, pol in bg]
+            ok_guard = bool(bg) and _implies_c_contiguous(bg)
             if not ok_guard:
                 verdict = False
                 det.append(f"the value bound at `{short(dnode.ast) if dnode.ast is not None else 'entry'}` reaches comm.Send without np.ascontiguousarray"
@@ -486,6 +486,42 @@ def r23_5(ctx, m):
                       any(pol and src(t).replace(" ", "") in (f"{dn}isnp.ndarray", f"{dn}==np.ndarray") for t, pol in known_atoms(cfg, d)) for d in defs)
         ctx.check("R23.5", key, coerced, None if coerced else f"`{short(a.ast)}` sees the raw partial sum: np.array(1.) + np.array(2.) is a numpy scalar, "
                   f"not an ndarray, so the task raises and its partner waits forever", sd, a.ast)
+
+
+def _implies_c_contiguous(guards_):
+    """do the guards (test, polarity) that hold on the bypass path imply C-contiguity?  truth table over the flag atoms"""
+    import itertools
+    atoms = {}
+
+    def ev(t, val):
+        if isinstance(t, ast.UnaryOp) and isinstance(t.op, ast.Not):
+            return not ev(t.operand, val)
+        if isinstance(t, ast.BoolOp):
+            vs = [ev(x, val) for x in t.values]
+            return all(vs) if isinstance(t.op, ast.And) else any(vs)
+        k = src(t).replace(" ", "")
+        if k.endswith(".flags.c_contiguous") or k.endswith("flags['C_CONTIGUOUS']") or k.endswith('flags["C_CONTIGUOUS"]'):
+            return val["C"]
+        if k.endswith(".flags.f_contiguous") or k.endswith("flags['F_CONTIGUOUS']") or k.endswith('flags["F_CONTIGUOUS"]'):
+            return val["F"]
+        if k.endswith(".flags.forc"):
+            return val["C"] or val["F"]
+        if k.endswith(".flags.fnc"):
+            return val["F"] and not val["C"]
+        if k.endswith(".flags.contiguous"):
+            return val["C"]
+        atoms.setdefault(k, len(atoms))
+        return val.get(k, False)
+    # collect free atoms first
+    for t, pol in guards_:
+        ev(t, {"C": False, "F": False})
+    free = sorted(atoms)
+    for bits in itertools.product([False, True], repeat=2 + len(free)):
+        val = {"C": bits[0], "F": bits[1]}
+        val.update({k: b for k, b in zip(free, bits[2:])})
+        if all(ev(t, val) == pol for t, pol in guards_) and not val["C"]:
+            return False
+    return True
 
 
 def _bypass_guards(cfg, def_id, use_id, name):
@@ -538,6 +574,33 @@ def r23_6(ctx, m):
     ctx.check("R23.6", f"{bc.key}::every collective and recursive call uses the same root", okk, f"{len(colls)} collectives, {len(rec)} recursive calls", bc)
 
 
+def r23_7(ctx, m):
+    mod = m.module("nifty.cl.utilities")
+    bc = mod.functions.get("_bcast")
+    ctx.rule("R23.7", "_bcast, raw-array branch: the buffer the root hands to comm.Bcast is C-contiguous (np.ascontiguousarray), because "
+                      "every receiver allocates a C-ordered buffer of the announced shape", floor=1)
+    if bc is None:
+        ctx.error("_bcast missing")
+        return
+    calls = [c for c in ast.walk(bc.node) if isinstance(c, ast.Call) and isinstance(c.func, ast.Attribute) and c.func.attr == "Bcast"]
+    key = f"{bc.key}::root buffer of comm.Bcast is C-contiguous"
+    if len(calls) != 1 or not isinstance(calls[0].args[0], ast.Name):
+        ctx.und("R23.7", key, f"{len(calls)} raw Bcast calls", bc)
+        return
+    bn = calls[0].args[0].id
+    defs = [st for st in walk_no_nested(bc.node) if isinstance(st, ast.Assign) and any(isinstance(t, ast.Name) and t.id == bn for t in st.targets)]
+    if len(defs) != 1:
+        ctx.und("R23.7", key, f"{len(defs)} definitions of `{bn}`", bc)
+        return
+    v = defs[0].value
+    root_expr = v.body if isinstance(v, ast.IfExp) else v
+    if isinstance(v, ast.IfExp) and isinstance(v.test, ast.UnaryOp):
+        root_expr = v.orelse
+    good = any(isinstance(x, ast.Call) and call_name(x) == "ascontiguousarray" for x in ast.walk(root_expr))
+    ctx.check("R23.7", key, good, f"root sends `{src(root_expr)}`" + ("" if good else ": a Fortran-ordered array is transmitted in memory order and read "
+                                                                         "back as C order by the receivers"), bc, defs[0])
+
+
 _run_c23b = run
 
 
@@ -545,3 +608,4 @@ def run(ctx):  # noqa: F811
     _run_c23b(ctx)
     r23_5(ctx, ctx.model)
     r23_6(ctx, ctx.model)
+    r23_7(ctx, ctx.model)
